@@ -110,7 +110,7 @@ def run_case(case):
         del t2[k]
     if t2.root_hash != r.trie.root_hash:
         res.fail("root-depends-on-history", "contents %r: %s vs %s after reinsertion in another order"
-                 % (sorted(r.model.items()), r.trie.root_hash.hex(), t2.root_hash.hex()))
+                 % (sorted(r.model.items()), common.hx(r.trie.root_hash), common.hx(t2.root_hash)))
     # operations that SUCCEED on an incomplete database (a node body withheld, as in beam sync) must also leave the
     # Yellow-Paper root of the resulting mapping (whether such an operation may raise instead is C07's subject)
     if len(r.db) >= 3 and not case["prune"]:
@@ -133,7 +133,7 @@ def run_case(case):
                 want = hexlib.yp_root(model2)
                 if r.trie.root_hash != want:
                     res.fail("root-not-yellow-paper", "on a database with one node body withheld delete(%r) succeeded and left the root %s; "
-                             "the Yellow Paper root of the resulting mapping is %s" % (k, r.trie.root_hash.hex(), want.hex()))
+                             "the Yellow Paper root of the resulting mapping is %s" % (k, common.hx(r.trie.root_hash), want.hex()))
                 res.tags.add("partial-db-op:ok")
             else:
                 res.tags.add("partial-db-op:raised")
